@@ -103,7 +103,7 @@ def run(ctx):
     ctx.rule("R03.7", "buffered table text is foster-parented iff some pending character token contains a non-whitespace character (independent of the split)")
     ctx.guard("R03.7", "table-text", lambda: r03_7(ctx))
     ctx.rule("R03.1", "on every path to 'need more input' nothing but input acquisition and pure queries has happened in this iteration")
-    ctx.rule("R03.2", "temp_buf is empty at the entry of every state whose arm starts with eat() (forward dataflow over the transition table)")
+    ctx.rule("R03.2", "temp_buf is empty at the entry of every state whose arm starts with eat() (forward dataflow over the transition table); an eat() that needs more input stashes the whole queue, in order")
     ctx.rule("R03.3", "ignore_lf is cleared only by get_preprocessed_char, after raw text was pushed back, or after peek() returned Some")
     ctx.rule("R03.4", "feed() clears discard_bom once the first character of the stream has been seen; nothing else reads the flag")
     ctx.rule("R03.5", "a tag is emitted only on the consuming '>' transition; the Script arm resets the state; run() returns the pause immediately")
@@ -111,6 +111,7 @@ def run(ctx):
     ctx.guard("R03.1", "suspend", lambda: tr.suspend_before_effect(ctx, "R03.1", "html"))
     ctx.guard("R03.1", "charref-stuck", lambda: tr.charref_needs_more_input_means_stuck(ctx, "R03.1", "html"))
     ctx.guard("R03.2", "temp_buf", lambda: tr.temp_buf_dataflow(ctx, "R03.2", "html"))
+    ctx.guard("R03.2", "eat-stash", lambda: tr.eat_drains_queue(ctx, "R03.2", "html"))
     ctx.guard("R03.3", "ignore_lf", lambda: tr.ignore_lf_rule(ctx, "R03.3", "html"))
     ctx.guard("R03.3", "ignore_lf-consumed", lambda: tr.ignore_lf_consumed_when_seen(ctx, "R03.3", "html"))
     ctx.guard("R03.4", "bom", lambda: tr.bom_rule(ctx, "R03.4", "html"))
